@@ -163,6 +163,17 @@ func runC10(c *Ctx) {
 	}
 
 	for k := 0; k < 60 && !c.Violated(); k++ {
+		if k%9 == 8 {
+			// the table keeps changing between URL calls: a sibling that shares part of a segment splits nodes of live routes
+			if live := s.LivePatterns(); len(live) > 0 && r.Bool() {
+				p := gen.Hostile.Derive(r, ref.Pick(r, live))
+				s.Handle(p, randomMethods(r, s), Via{})
+			} else {
+				p := ref.Pick(r, pool)
+				s.Handle(p, randomMethods(r, s), Via{})
+			}
+			c.Class("registration_between_url_calls")
+		}
 		// choose a pattern class
 		var pattern string
 		live := s.LivePatterns()
